@@ -35,12 +35,13 @@ def prepare():
 @st.composite
 def case_strategy(draw, tier):
     release = draw(st.integers(0, 5)) == 0
-    return {
+    return _cap({
         'pos': draw(st.sampled_from(['sole', 'sole', 'several', 'relay'])),
         'k': draw(st.one_of(st.integers(1, 20), st.integers(1, 20), st.integers(20, 150))),
         'stall_ms': draw(st.integers(6000, 9000)) if release else draw(st.integers(500, 4800)),
         'n': 400,
-        'src_work': draw(st.lists(st.sampled_from([3, 3, 5, 10, 30, 100]), min_size=1, max_size=2)),
+        # producers slower than the 100 ms request interval as well: waiting consumers then re-request several times per frame
+        'src_work': draw(st.lists(st.sampled_from([3, 3, 5, 10, 30, 100, 150, 350]), min_size=1, max_size=2)),
         'relay_work': draw(st.lists(scen.work_ms, min_size=1, max_size=2)),
         'cons_work': draw(st.lists(st.sampled_from([0, 0, 3, 10, 50, 250]), min_size=1, max_size=2)),
         'other_work': draw(st.lists(st.sampled_from([0, 3, 10, 50]), min_size=1, max_size=2)),
@@ -50,7 +51,13 @@ def case_strategy(draw, tier):
         'starts': draw(st.lists(st.sampled_from([0, 0, 0, 60, 400]), min_size=4, max_size=4)),
         'double': draw(st.booleans()),
         'ipc': draw(st.booleans()),
-    }
+    })
+
+
+def _cap(case):
+    if max(case['src_work']) >= 150:
+        case['k'] = min(case['k'], 25)      # keep the virtual run length reasonable for slow producers
+    return case
 
 
 def build_nodes(case, stall_ms):
